@@ -48,6 +48,11 @@ Inductive case :=
         (a_creates b_creates : list str) (a_sql b_sql : list (list tok))
         (errors : list bool) (tables : list str)
 | CEvo (dc : decl) (keep : list str) (rows : list (list Z)) (ops : list evo_op) (steps : list evostep)
+(* two databases holding the same table and rows, the class bound to the first; every step addressed by `via`
+   (0 no argument / 1 connection=home / 2 connection=second); steps = the ADDRESSED database and the class;
+   other_same = "the other database is exactly what it was at the start", observed after every step *)
+| CEvo2 (dc : decl) (keep : list str) (rows : list (list Z)) (via : nat) (ops : list evo_op) (steps : list evostep)
+        (other_same : list bool)
 | CIdem (a b : decl) (ops : list (nat * bool * bool * bool * bool))
         (* op, class a?, if-flag, f1, f2.  op 0 createTable(ifNotExists, createJoinTables=f1, createIndexes=f2) /
            1 dropTable(ifExists, dropJoinTables=f1) / 2 raw DROP TABLE / 3 createJoinTables(ifNotExists) / 4 createIndexes() *)
@@ -63,7 +68,8 @@ Inductive case :=
         (ops : list (nat * bool * nat * bool * bool * bool))
         (* op, class a?, via (0 no argument / 1 connection=home / 2 connection=second), if-flag, f1, f2.
            op 0..4 as in CIdem / 5 dropJoinTables(ifExists) / 6 tableExists / 7 clearTable(clearJoinTables=f1) /
-           8 out of band: one row into every table of that database *)
+           8 out of band: one row into every table of that database /
+           9 out of band: DROP TABLE of the (f1 + 2*f2)-th link table the class owns *)
         (steps : list (bool * option bool * (list (str * nat) * list str) * (list (str * nat) * list str)))
         (rend : list (bool * nat * nat * bool * bool * sqlobs)).
         (* class a?, dialect (index in all_dialects), method (see render_sql), f1, f2, what came back *)
@@ -236,14 +242,15 @@ Fixpoint idem_views (a b : decl) (db : dbstate) (ops : list (nat * bool * bool *
   end.
 
 (* ---------- conn cases *)
+Definition mk_arg (via : nat) : option connid :=
+  match via with 0%nat => None | 1%nat => Some Home | _ => Some Second end.
 Definition mk_op (op : nat) (flag f1 f2 : bool) (k : Z) : sch_op :=
   match op with
   | 0%nat => OCreate flag f1 f2 | 1%nat => ODrop flag f1 | 2%nat => ORawDrop | 3%nat => OJoins flag
   | 4%nat => OIndexes | 5%nat => ODropJoins flag | 6%nat => OExists | 7%nat => OClear f1
-  | _ => OFill k
+  | 8%nat => OFill k
+  | _ => ORawDropLink ((if f1 then 1 else 0) + (if f2 then 2 else 0))%nat
   end.
-Definition mk_arg (via : nat) : option connid :=
-  match via with 0%nat => None | 1%nat => Some Home | _ => Some Second end.
 Definition db_view (db : dbstate) : list (str * nat) * list str :=
   (map (fun t => (t_name t, List.length (t_rows t))) (db_tables db), map fst (db_indexes db)).
 Definition same_tabs (x y : list (str * nat)) : bool :=
@@ -259,6 +266,22 @@ Fixpoint conn_views (a b : decl) (w : world) (k : Z) (ops : list (nat * bool * n
       let cl := {| c_arg := mk_arg via; c_who := who; c_op := mk_op op flag f1 f2 k |} in
       let '(w', e, ans) := world_step Home a b cl w in
       (e, ans, db_view (w_home w'), db_view (w_second w')) :: conn_views a b w' (k + 1)%Z r
+  end.
+(* evolution steps through the argument: view of class + addressed database, and whether the other one still
+   shows what it showed at the start *)
+Fixpoint evo2_views (keep : list str) (arg : option connid) (init : dbstate) (w : evo_world) (ops : list evo_op)
+  : list (evostep * bool) :=
+  match ops with
+  | [] => []
+  | op :: r =>
+      let '(w', e) := evo_world_step Home arg op w in
+      let c := route Home arg in
+      let oc := match c with Home => Second | Second => Home end in
+      (step_view keep {| e_decl := ew_decl w'; e_db := get c (ew_dbs w') |} e,
+       view_eqb (db_view (get oc (ew_dbs w'))) (db_view init)
+       && list_eqb (fun x y => list_eqb str_eqb (t_cols x) (t_cols y) && list_eqb (list_eqb Z.eqb) (t_rows x) (t_rows y))
+            (db_tables (get oc (ew_dbs w'))) (db_tables init))
+      :: evo2_views keep arg init w' r
   end.
 Definition caps0 : caps := {| mysql_micro := false; mssql_micro := false; mssql_max := false |}.
 Definition rend_agree (a b : decl) (r : bool * nat * nat * bool * bool * sqlobs) : bool :=
@@ -290,6 +313,13 @@ Definition agree (c : case) : bool :=
           list_eqb Bool.eqb errs errors && same_set (map t_name (db_tables db)) tables)
   | CEvo dc keep rows ops steps =>
       list_eqb evostep_eqb (evo_views keep (evo_init dc rows) ops) steps
+  | CEvo2 dc keep rows via ops steps same =>
+      let db0 := e_db (evo_init dc rows) in
+      list_eqb (fun x y => evostep_eqb (fst x) (fst y) && Bool.eqb (snd x) (snd y))
+               (evo2_views keep (mk_arg via) db0
+                  {| ew_decl := dc; ew_dbs := {| w_home := db0; w_second := db0 |} |} ops)
+               (combine steps same)
+      && Nat.eqb (List.length steps) (List.length same)
   | CIdem a b ops steps =>
       list_eqb (fun x y => Bool.eqb (fst (fst x)) (fst (fst y)) && same_set (snd (fst x)) (snd (fst y))
                            && same_set (snd x) (snd y))
